@@ -104,6 +104,11 @@ std::vector<vfps::impedance_t> vfps::Impedance::readData(std::string fname)
 
     while(is.good()) {
         is >> lineno >> real >> imag;
+        if (is.fail()) {
+            // no complete sample could be read (end of file, malformed text):
+            // lineno, real, and imag hold no new data
+            break;
+        }
         if (lineno != old_lineno) {
             rv.push_back(impedance_t(real,imag));
         }
